@@ -150,6 +150,9 @@ class Run:
             if kf["id"] not in [k["id"] for k in self.known]:
                 self.known.append(kf)
             return
+        if len(self.violations) >= 12:      # enough to report; do not litter the replay directory
+            self.violations.append({"prop": prop, "what": what, "replay": self.violations[-1]["replay"], "sig": sig})
+            return
         path = self.save_replay(prop, replay_payload)
         self.violations.append({"prop": prop, "what": what, "replay": path, "sig": sig})
 
